@@ -206,6 +206,8 @@ def specOnCert (der : Bytes) (eff : V1.CertificateContent) (cfgSubject : String)
           eff.serialNumber == 0 || X509.decInt c.tbs.serialContent == some eff.serialNumber),
         ("C03: unique ids differ from the configuration",
           (c.tbs.issuerUid.map (·.drop 1)) == eff.issuerUniqueId.map (·.bytes) && (c.tbs.subjectUid.map (·.drop 1)) == eff.subjectUniqueId.map (·.bytes)),
+        ("C06: a unique id given as raw value (!binary / !null / !empty) is not in the certificate byte for byte",
+          (c.tbs.issuerUid.map (·.drop 1)) == eff.issuerUniqueId.map (·.bytes) && (c.tbs.subjectUid.map (·.drop 1)) == eff.subjectUniqueId.map (·.bytes)),
         ("C04: validity differs from the effective configuration", c.tbs.notBefore == eff.validity.from_ && c.tbs.notAfter == eff.validity.until_),
         ("C05: signature algorithm identifier is not the configured one",
           hasManip || (Gen.sigAlgTable[eff.signatureAlgorithm]?.map (·.1)) == some c.sigAlg.oid),
@@ -223,6 +225,22 @@ def specOnCert (der : Bytes) (eff : V1.CertificateContent) (cfgSubject : String)
             | .authKeyId "hash" => (match issuerBits with | some b => SpecExt.decAki ce.value == some (some (Sha1.sum b)) | none => true)
             | .subjectKeyIdentifier "hash" => SpecExt.decSki ce.value == some (Sha1.sum (c.tbs.spkiBits.drop 1))
             | _ => true),
+        ("C19: `.version` is not exactly the given value", eff.manipulations.version.all (· == c.tbs.version)),
+        ("C19: `.signatureAlgorithm` is not exactly the given identifier (OID, no parameters)",
+          eff.manipulations.signatureAlgorithm.all fun o => c.sigAlg.oid == o && c.sigAlg.params.isNone),
+        ("C19: `.signatureValue` is not exactly the given bits", eff.manipulations.signatureValue.all fun b => c.signature == 0 :: b),
+        ("C19: `.tbs.signature` is not exactly the given identifier (OID, no parameters)",
+          eff.manipulations.tbsSignature.all fun o => c.tbs.sigAlg.oid == o && c.tbs.sigAlg.params.isNone),
+        ("C19: `.tbs.subjectPublicKey.algorithm` is not exactly the given identifier (OID, no parameters)",
+          eff.manipulations.tbsPublicKeyAlgorithm.all fun o => c.tbs.spkiAlg.oid == o && c.tbs.spkiAlg.params.isNone),
+        ("C19: `.tbs.subjectPublicKey.subjectPublicKey` is not exactly the given bits",
+          eff.manipulations.tbsPublicKey.all fun b => c.tbs.spkiBits == 0 :: b),
+        ("C19: a field no manipulation names differs from what the configuration without manipulations produces (outer algorithm)",
+          !hasManip || eff.manipulations.signatureAlgorithm.isSome || (Gen.sigAlgTable[eff.signatureAlgorithm]?.map (·.1)) == some c.sigAlg.oid),
+        ("C19: a field no manipulation names differs from what the configuration without manipulations produces (inner algorithm)",
+          !hasManip || eff.manipulations.tbsSignature.isSome || (Gen.sigAlgTable[eff.signatureAlgorithm]?.map (·.1)) == some c.tbs.sigAlg.oid),
+        ("C19: a field no manipulation names differs from what the configuration without manipulations produces (version)",
+          !hasManip || eff.manipulations.version.isSome || c.tbs.version == 2),
         ("C06: extension OIDs, order or critical flags differ from the effective configuration",
           c.tbs.extensions.map (fun e => (e.oid, e.critical)) == eff.extensions.map (fun e => (e.oid.getD [], e.critical)))
       ]
@@ -351,6 +369,14 @@ def replayRun (tz : Int) (files : List FileJ) (strat : Nat) (fault : Option Faul
   -- the abstract machine of the file-level theorems, executed on the abstraction of this directory (default flags only)
   let convPlanned : Option (List String) := if strat == 9 then convPlan s0 tz else none
   let convMismatch := match convPlanned with | some cp => cp != ip.map (·.1) | none => false
+  -- the effective configuration of a planned entity: `time.Now()` of the parse (of the configuration and of
+  -- its profile, from which a run-relative validity may be inherited) is observed through the entity's own certificate
+  let effAt (alias_ : String) : Except String V1.CertificateContent :=
+    match (s0.find alias_).bind (fun e => finalCert e.configPath) with
+    | some c =>
+      if planned.contains alias_ then Db.validateAndMerge (importState tz files pre ranks keys (fun _ _ => c.tbs.notBefore)).1 alias_
+      else Db.validateAndMerge s0 alias_
+    | none => Db.validateAndMerge s0 alias_
   -- BulkUpdate, replayed in plan order
   let mut s := s0
   let mut checks : List CertCheck := []
@@ -359,7 +385,7 @@ def replayRun (tz : Int) (files : List FileJ) (strat : Nat) (fault : Option Faul
   let mut writeIx : Nat := 0
   for pl in o.plan do
     if expectUpdate != "" then break
-    match s.find pl.alias, Db.validateAndMerge s0 pl.alias with
+    match s.find pl.alias, effAt pl.alias with
     | some e, .ok eff =>
       s := s.update pl.alias fun x => { x with content := eff }       -- PutConfig(alias, EffectiveConfig)
       let pemPath := artifactFileName e.configPath
@@ -441,7 +467,7 @@ def replayRun (tz : Int) (files : List FileJ) (strat : Nat) (fault : Option Faul
   if !untouchedOk then specFails := specFails ++ ["C10: an artifact that was not planned was modified or removed"]
   if implUpdate == "" then
     for pl in o.plan do
-      match s0.find pl.alias, Db.validateAndMerge s0 pl.alias with
+      match s0.find pl.alias, effAt pl.alias with
       | some e, .ok eff =>
         let pemJ := post.find? (·.path = artifactFileName e.configPath)
         match (pemJ.bind (·.cert)) with
@@ -509,6 +535,10 @@ def ranksOf (j : Json) (k : String) : String → Nat :=
   | .ok r => fun p => (r.getObjValAs? Nat p).toOption.getD 0
   | .error _ => fun _ => 0
 
+/-- some profile in the directory constrains the subject (what makes a run non-trivial for C09) -/
+def hasSubjectConstraint (files : List FileJ) : Bool :=
+  files.any fun f => f.kind == "profile" && (match f.json with | some j => (j.getObjVal? "subjectAttributes").toOption.isSome | none => false)
+
 /-- `pki`: one run over a generated directory -/
 def opPki : OpFn := fun view inp out => do
   let tz ← inp.getObjValAs? Int "tz"
@@ -521,6 +551,7 @@ def opPki : OpFn := fun view inp out => do
   let keys : List KeyJ ← out.getObjValAs? (List KeyJ) "keys"
   let v := replayRun tz files strat fault pre post (ranksOf out "ranksPre") keys o
   let seen := v.allClauses.find? (viewAccepts view)
-  pure { corr := v.corr, spec := seen.isNone && (v.spec || !viewAccepts view v.clause), clause := seen.getD v.clause, nontrivial := !v.planned.isEmpty, branch := v.branch, model := v.detail, feat := v.feat }
+  pure { corr := v.corr, spec := seen.isNone && (v.spec || !viewAccepts view v.clause), clause := seen.getD v.clause,
+         nontrivial := if view == "C09" then hasSubjectConstraint files else !v.planned.isEmpty, branch := v.branch, model := v.detail, feat := v.feat }
 
 end Driver
